@@ -399,6 +399,47 @@ def refCallAfter {ρ : Type} (ops : List RefOp) (w : Nat) (call : Nat → Except
 /-- `etl::make_from_tuple<T>(t)` = `T(get<I>(forward<Tuple>(t))...)`: the constructor arguments in order -/
 def makeFromTuple (t : List Int) : Except Err (List Int) := getAll t
 
+/-! ### make_from_tuple: which constructor of the target type receives the elements
+
+`T(x...)` (parentheses: direct-non-list-initialisation) and `T{x...}` (braces: direct-list-initialisation) are different
+initialisations for some target types.  The header writes PARENTHESES.  Target kinds of the harness (all elements are `int`
+unless said otherwise, arity 0..3): -/
+inductive Target where
+  | plain       -- constructors `T()`, `T(int)`, `T(int,int)`, `T(int,int,int)`
+  | il          -- those and `T(initializer_list<int>)`
+  | ilWide      -- those and `T(initializer_list<long>)` (`int` → `long` is not a narrowing conversion)
+  | ilOther     -- those and `T(initializer_list<Tag>)`, `Tag` not constructible from `int`
+  | agg         -- an aggregate `struct { int a, b, c; }`
+  | expl        -- the constructors of `plain`, all `explicit`
+  | aggNarrow   -- the aggregate, the tuple elements are `long` (`long` → `int` narrows)
+  | ctorNarrow  -- constructors taking `short`s, the tuple elements are `int` (`int` → `short` narrows)
+  deriving Repr, DecidableEq, Inhabited
+
+/-- how the target object was initialised -/
+inductive Built where
+  | ctor (args : List Int)      -- a constructor with one parameter per argument received them (aggregate: the members, in order)
+  | list (elems : List Int)     -- the `initializer_list` constructor received them as one list
+  | illFormed                   -- the initialisation does not compile
+  deriving Repr, DecidableEq, Inhabited
+
+/-- the members of the three-`int` aggregate initialised from `args`; members without an initialiser are value-initialised -/
+def aggMembers (args : List Int) : Except Err Built :=
+  if args.length ≤ 3 then .ok (.ctor (args ++ List.replicate (3 - args.length) 0))
+  else .error (.pre "aggregate: more initialisers than members")
+
+/-- `T(args...)`: the constructors are enumerated and overload resolution picks by the argument list ([dcl.init.general] 16.6.2);
+    an `initializer_list` constructor has ONE parameter and no `int` converts to it, so it never takes two or three arguments and
+    loses to `T(int)` for one; narrowing conversions are allowed; an aggregate is initialised member by member (C++20, 16.6.2.2) -/
+def parenInit (tg : Target) (args : List Int) : Except Err Built :=
+  match tg with
+  | .agg | .aggNarrow => aggMembers args
+  | _ => if args.length ≤ 3 then .ok (.ctor args) else .error (.pre "no constructor takes that many arguments")
+
+/-- `etl::make_from_tuple<T>(t)` for a target kind: `T(get<I>(forward<Tuple>(t))...)` — parentheses -/
+def makeFromTupleT (tg : Target) (t : List Int) : Except Err Built := do
+  let xs ← getAll t
+  parenInit tg xs
+
 /-! ## inplace_function -/
 
 /-- a stored callable: closure type, captured id, number of calls made through this copy -/
@@ -534,6 +575,48 @@ def assignFn (s : St) (a : Addr) (f : Fn) : Except Err St := do
   let s1 ← ctorFn s .tmp f
   assignBody s1 a
 
+/-! ### construction / assignment from another inplace_function: which constructor is selected
+
+The source is an `inplace_function` expression — of the same specialisation, or (`conv`) of another one with a capacity and an
+alignment the destination accepts (`is_valid_inplace_destination`; any other combination is a `static_assert` failure, i.e. not
+a program).  Three constructors compete:
+
+* the closure constructor `template <typename T, typename C = decay_t<T>> inplace_function(T&& closure)` — it is constrained by
+  `requires(!detail::is_inplace_function<C>::value && …)`, false for EVERY specialisation of `inplace_function` (not only for the
+  destination's own type), so it is never viable for such a source, whatever its category;
+* `inplace_function(inplace_function&&)` / `inplace_function(inplace_function<R(Args...), Cap, Align>&&)` — a non-const rvalue
+  reference: binds an rvalue of non-const type only;
+* `inplace_function(inplace_function const&)` / `inplace_function(inplace_function<R(Args...), Cap, Align> const&)` — binds every
+  category; for a non-const rvalue the `&&` overload is the better match.
+
+`operator=(inplace_function other)` takes its parameter by value: the parameter is initialised by the same selection (for another
+specialisation through the implicit conversion the converting constructors provide), then relocated into `*this`. -/
+
+/-- the constructor that initialises an `inplace_function` from an `inplace_function` expression -/
+inductive Sel where
+  | copy      -- `(… const&)`: `copy_ptr`
+  | move      -- `(…&&)`: `relocate_ptr`, the source's vtable becomes the empty one
+  deriving Repr, DecidableEq, Inhabited
+
+/-- overload resolution by the category of the source expression -/
+def selectCtor : Cat → Sel
+  | .r => .move          -- non-const rvalue: `&&` beats `const&`
+  | .l => .copy          -- non-const lvalue: only `const&` is viable (the closure constructor is constrained away)
+  | .c => .copy          -- const lvalue
+  | .k => .copy          -- const rvalue: `&&` of non-const type does not bind
+
+/-- `inplace_function dst(src)` with `src` of category `q` -/
+def ctorFrom (s : St) (a o : Addr) (conv : Bool) (q : Cat) : Except Err St :=
+  match selectCtor q with
+  | .copy => if conv then ctorConvCopy s a o else ctorCopy s a o
+  | .move => if conv then ctorConvMove s a o else ctorMove s a o
+
+/-- `dst = src` with `src` of category `q` -/
+def assignFrom (s : St) (a o : Addr) (conv : Bool) (q : Cat) : Except Err St :=
+  match selectCtor q with
+  | .copy => assignCopy s a o conv
+  | .move => assignMove s a o conv
+
 /-- `swap(other)`: `if (this == &other) return;` (fix-c20), `tmp` buffer,
     `_vtable->relocate_ptr(&tmp, &_storage); other._vtable->relocate_ptr(&_storage, &other._storage);
      _vtable->relocate_ptr(&other._storage, &tmp); swap(_vtable, other._vtable);` -/
@@ -573,10 +656,8 @@ def toBool (s : St) (a : Addr) : Bool := (s.vt a).isSome
 inductive Op where
   | ctorEmpty (i : Nat)
   | ctorFn (i : Nat) (f : Fn)
-  | ctorCopy (i j : Nat) (conv : Bool)
-  | ctorMove (i j : Nat) (conv : Bool)
-  | assignCopy (i j : Nat) (conv : Bool)
-  | assignMove (i j : Nat) (conv : Bool)
+  | ctorFrom (i j : Nat) (conv : Bool) (q : Cat)    -- `F i(<j as an expression of category q>)`; conv: another specialisation
+  | assignFrom (i j : Nat) (conv : Bool) (q : Cat)  -- `i = <j as an expression of category q>`
   | assignFn (i : Nat) (f : Fn)
   | assignNull (i : Nat)
   | swap (i j : Nat)
@@ -602,16 +683,11 @@ def step (s : St) : Op → Except Err (St × Out × Log)
     let s1 ← dtor s (.obj i)
     let s2 ← ctorFn s1 (.obj i) f
     .ok (s2, .unit, [])
-  | .ctorCopy i j conv => do
+  | .ctorFrom i j conv q => do
     let s1 ← dtor s (.obj i)
-    let s2 ← if conv then ctorConvCopy s1 (.obj i) (.obj j) else ctorCopy s1 (.obj i) (.obj j)
+    let s2 ← ctorFrom s1 (.obj i) (.obj j) conv q
     .ok (s2, .unit, [])
-  | .ctorMove i j conv => do
-    let s1 ← dtor s (.obj i)
-    let s2 ← if conv then ctorConvMove s1 (.obj i) (.obj j) else ctorMove s1 (.obj i) (.obj j)
-    .ok (s2, .unit, [])
-  | .assignCopy i j conv => do .ok (← assignCopy s (.obj i) (.obj j) conv, .unit, [])
-  | .assignMove i j conv => do .ok (← assignMove s (.obj i) (.obj j) conv, .unit, [])
+  | .assignFrom i j conv q => do .ok (← assignFrom s (.obj i) (.obj j) conv q, .unit, [])
   | .assignFn i f => do .ok (← assignFn s (.obj i) f, .unit, [])
   | .assignNull i => do .ok (← assignNull s (.obj i), .unit, [])
   | .swap i j => do .ok (← swap s (.obj i) (.obj j), .unit, [])
